@@ -1,7 +1,7 @@
 """C12 - shortest-path trees are exact and mutually consistent."""
 from lib import engine
 from lib.core import tier
-from units import k12_scalar, k12a_sptree_init, k12b_first
+from units import k12_scalar, k12a_sptree_init, k12b_first, k12c_lexdijkstra
 
 LEVEL = "other"
 EXPLANATION = (
@@ -12,17 +12,19 @@ EXPLANATION = (
     "exactly to the source and to the vertices with a predecessor, each storing its vertex, its distance (0 for the source) and its "
     "predecessor edge, sets the root, lists every non-source node exactly once under the other endpoint of its predecessor edge "
     "and dereferences no null pointer (K12a, given the contract of lex_dijkstra).  BOUNDED by CBMC (trees <= 5/6 nodes, unwound): "
-    "compute_first_in_path labels every tree node with the child of the root whose subtree holds it (K12b).  BOUNDED "
+    "compute_first_in_path labels every tree node with the child of the root whose subtree holds it (K12b).  PROVED(n<=4, thorough 5): "
+    "lex_dijkstra hands back exact shortest-path distances and a tight predecessor tree (K12c: loop contracts with quantified "
+    "invariants, heap / comparator / combiner through their contracts; LexDistanceCombine itself proved, K12d) - WHICH of several "
+    "shortest paths is chosen, i.e. the tie-breaking the consistency clauses are about, is not covered by that unit.  BOUNDED "
     "stand-in for contract K12 (the property statement): for every graph of the exact-domain set and every "
     "root, distances = Floyd-Warshall, predecessor edges form a tree whose root paths have those lengths, "
     "first(v) is the child of the root on the path, tree path u->v is the reverse of v->u, every sub-path of a "
     "chosen path is the chosen path between its endpoints; the set-difference tail of the comparator is a strict "
-    "total order on all equal-size subsets of {0..5}.  lex_dijkstra itself (Boost d-ary heap over "
-    "function_property_maps, std::set labels) is not parseable by CBMC.")
+    "total order on all equal-size subsets of {0..5}.")
 
 
 def run(rep):
-    engine.run_units(rep, k12_scalar.units(tier()) + k12a_sptree_init.units(tier()) + k12b_first.units(tier()))
+    engine.run_units(rep, k12_scalar.units(tier()) + k12a_sptree_init.units(tier()) + k12b_first.units(tier()) + k12c_lexdijkstra.units(tier()))
     engine.run_native(rep, "e3_components", driver="e3_components[C12]", args=["--only", "C12"],
                       functions={"SPTree ctor/node/first + lex_dijkstra": "bounded(all graphs n<=6 + tie-heavy families + random)",
                                  "LexDistanceCompare set-difference tail": "bounded(all equal-size subsets of {0..5})"},
